@@ -1,6 +1,9 @@
 import RsMatterVerif.Lemmas.Chunk
 import RsMatterVerif.Lemmas.ChunkAcc
 import RsMatterVerif.Lemmas.ChunkEvents
+import RsMatterVerif.Lemmas.ChunkLive
+import RsMatterVerif.Lemmas.ChunkCursor
+import RsMatterVerif.Lemmas.ChunkWf
 /-!
 # C14 — a chunked answer carries the complete result exactly once
 
@@ -16,7 +19,10 @@ combination of sizes:
   reports of all messages, concatenated, are the reports of the selected attributes (not filtered
   by the subscription, not held back by a data-version filter), each once, in request order, a list
   whole or as "empty list + one append per element", an error status standing for a report that
-  fits no message — and only for such a report (`Justified`); the event reports are the status
+  fits no message — and only for such a report, per REPORT (`Justified`: a scalar / the start of a
+  streamed list is failed iff its report fits no empty message; a streamed list is cut at index `k`
+  iff the start and the elements before `k` fit and the read of index `k` — element `k`, or the
+  end-of-list header — does not: `justified_unique`, `status_place_determined`); the event reports are the status
   reports of the invalid paths and then the events of the buffer in the cursor's range that pass
   the event filters, each once, in buffer order — for every event buffer that is a snapshot of the
   event queue of `im/events.rs` after any history of pushes / evictions / promotions / failed pushes
@@ -38,7 +44,17 @@ for every answer, with or without events: `message_size_accounts` (length = head
 structural ends + trailer), `progress_with_events` (every message but the last carries a report when
 the attribute array start is not longer than the event array start — the real encoding —, all but
 at most one otherwise), `chunk_count_bounded_events`.
-The defect of the unrepaired code: `exact_fit_fails_before_fix`.
+`messages_wellformed`: every message of every answer is one well-formed top-level struct (token view
+`msgToks` of `Model/Chunk.lean`).
+The model above identifies a report with (kind, id, list index, encoded size) and writes it atomically.
+Cursor level (`Model/ChunkCursor.lean`: write-buffer bytes, partial writes, rewind positions, the list
+index of `send_array_items`, loops with fuel — attribute section only): `cursor_attrs_refine`
+(`cputAttrs_sim`: it refines the size-level model, whole run, every partial-write function),
+`cursor_never_loops` (its fuel is never exhausted; `oversize_item_loops_before_fix`: the unrepaired loop
+exhausts every fuel), `cursor_attr_section`, `cursor_messages`, `cursor_report_starts`,
+`streamed_indices` (list indices `0, 1, …` each once, in order), and the model-level counterpart of the
+seeded change C14-a: `stale_rewind_breaks_reassembly`.
+The defects of the unrepaired code: `exact_fit_fails_before_fix`, `oversize_item_loops_before_fix`.
 -/
 namespace C14
 open Chunk
@@ -121,7 +137,7 @@ theorem ascending_of_queue {r : Req} (h : FromQueue r) : Ascending r := by
 
 /-- what a well-behaved answer `cs` to `r` looks like -/
 structure Good (c : Cfg) (r : Req) (cs : List ChunkOut) : Prop where
-  /-- every selected attribute exactly once, in order; an error status only for what fits no message -/
+  /-- every selected attribute exactly once, in order; an error status exactly for the report that fits no message -/
   attrs : ∃ outs, AllJustified c (selOf r.attrs) outs ∧ cs.flatMap (·.pieces) = allPieces (selOf r.attrs) outs
   /-- every selected event exactly once, in order -/
   events : cs.flatMap (·.events) = eventsOf r
@@ -266,10 +282,20 @@ theorem complete_of_fits {c : Cfg} {its : List Item} {outs : List Out} (hj : All
     · cases hc : o'.complete with
       | true => rfl
       | false =>
-        have := j hc
+        have := j.weak hc
         rw [hf it (by simp)] at this
         cases this
     · exact ih (fun x hx => hf x (by simp [hx])) o' ho'
+
+/-- the place of an error status is determined by the sizes: two justified outcomes of an item that
+both use a status are equal (`justified_unique`); an item whose reports all fit is never failed / cut
+(`Justified.complete_of_fits`); a list that can be streamed completely is never failed / cut
+(`justified_split_excl`).  What stays open by design is only the whole / streamed choice, which
+depends on the space left in the message the list starts in. -/
+theorem status_place_determined {c : Cfg} {it : Item} {o o2 : Out} (h : Justified c it o) (h2 : Justified c it o2) :
+    (o.complete = false → o2.complete = false → o = o2) ∧ (it.fits c = true → o.complete = true) ∧
+    (o = .split → o2.complete = true) :=
+  ⟨justified_unique h h2, h.complete_of_fits, fun e => justified_split_excl (e ▸ h) h2⟩
 
 /-! ## reassembly: lists come back complete and in order -/
 
@@ -687,6 +713,24 @@ example : chunks readCfg [.scalar 0 500 30, .scalar 1 648 30] =
 
 /-! ## a value that fits no message -/
 
+/-- the list of the audit (`docs/audit/C14.md`, concern 2): only element 2 is longer than a message -/
+def auditList : Item := .list 7 5000 10 [10, 10, 5000, 10] 5 30 32
+
+/-- **an error status stands exactly for the report that fits no message**: with the per-report
+`Justified` the only justified outcome of `auditList` is "cut at index 2" (what the model answers);
+replacing the whole list by a status, cutting it at index 0 or after its end, streaming it completely
+or sending it whole — all of which the former per-item `Justified` accepted or could not tell
+apart — are excluded -/
+example : Justified readCfg auditList (.cut 2) ∧ ¬ Justified readCfg auditList .failed ∧
+    ¬ Justified readCfg auditList (.cut 0) ∧ ¬ Justified readCfg auditList (.cut 4) ∧
+    ¬ Justified readCfg auditList .split ∧ ¬ Justified readCfg auditList .whole := by decide
+
+set_option maxRecDepth 32000 in
+/-- what the model answers for it: the two elements before the oversize one, then the status -/
+example : (chunks readCfg [auditList]).toOption.map (·.flatMap (·.pieces)) =
+    some [.listStart 7 10, .listElem 7 0 10, .listElem 7 1 10, .status 7 32] := by rfl
+
+
 set_option maxRecDepth 8000 in
 /-- a value that fits no message: the repaired code answers the attribute with an error status (the
 unrepaired code sent empty chunks forever) and goes on with the rest of the request -/
@@ -714,6 +758,340 @@ theorem C14_full_fails : ¬ C14_full := by
   subst hc
   simp [selOf, selected, yielded, AttrReq.unchanged, reassemble, content, plain] at hre
 
+/-! ## every message is well-formed on its own -/
+
+/-- **every message of every answer is well-formed on its own** (audit concern 6): there are flags
+`a` / `e` (the message contains the attribute / the event array) that account for its length
+(`Accounts`, as in `message_size_accounts`) and for which the TLV containers the message opens and
+closes (`msgToks`: ReportData struct, [subscription id], AttributeReports array with one struct per
+report, EventReports array, structural array ends, trailer with the end of the array that is still
+open + MoreChunkedMessages, or [SuppressResponse], revision, struct end) form ONE top-level struct in
+which every container is closed by its own `end_container` and the struct by the last token — with or
+without subscription id, with or without SuppressResponse.  This is container nesting DERIVED FROM THE
+FLAGS: `msgToks` is balanced by construction, the only non-definitional content is that every non-final
+(MoreChunks) message has an open array for its trailer to close (`more → a ∨ e`).  Byte-level
+completeness of the reports of a message: `cursor_messages` (attributes only); event reports, the inner
+encoding of a report and tag order: decoding oracle on the real chunks only. -/
+theorem messages_wellformed {c : Cfg} {r : Req} {cs : List ChunkOut} (hw : c.WF) (h : respond c r = .ok cs) :
+    ∀ ch ∈ cs, ∃ a e, (a = true → r.attrs.isSome = true) ∧ (e = true → r.events.isSome = true) ∧
+      Accounts c a e ch ∧ ∀ subId suppress, wellFormed (msgToks subId suppress a e ch) = true := by
+  obtain ⟨s2, x2, hcs⟩ := respond_acc hw h
+  intro ch hch
+  rcases hcs with ⟨rfl, _⟩ | rfl
+  · cases hch
+  · simp only [List.mem_reverse, List.mem_cons] at hch
+    rcases hch with rfl | hch
+    · refine ⟨!s2.fresh, r.events.isSome, ?_, (fun h0 => h0), x2.fin, ?_⟩
+      · intro hf
+        exact x2.freshT (by simpa using hf)
+      · intro subId suppress
+        exact msgToks_wellFormed _ _ _ _ _ (by simp)
+    · obtain ⟨_, a, e, h1, h2, h3, h4⟩ := x2.done ch hch
+      refine ⟨a, e, h1, h2, h3, fun subId suppress => msgToks_wellFormed _ _ _ _ _ ?_⟩
+      intro _
+      cases hb : ch.bare with
+      | true => exact .inl (h4 hb).1
+      | false =>
+        simp only [ChunkOut.bare, Bool.and_eq_false_iff, List.isEmpty_eq_false_iff] at hb
+        rcases hb with hb | hb
+        · left
+          cases ha : a with
+          | true => rfl
+          | false => exact absurd (h3.2.1 ha) hb
+        · right
+          cases he : e with
+          | true => rfl
+          | false => exact absurd (h3.2.2 he) hb
+
+set_option maxRecDepth 16000 in
+/-- the token view of the answer to `sampleReq` (a read: no subscription id; SuppressResponse on the
+last message): messages 1–3 carry the attribute array, message 4 ends it and starts the event array,
+message 5 continues the event array -/
+example : (respond readCfg sampleReq).toOption.map (fun cs =>
+      ((cs.zip [(true, false), (true, false), (true, false), (true, true), (false, true)]).map
+        fun (ch, ae) => msgToks false true ae.1 ae.2 ch).map fun ts => (ts.length, wellFormed ts)) =
+    some [(9, true), (15, true), (9, true), (14, true), (9, true)] := by rfl
+
+/-- the check is not vacuous: a non-final message without any array (the trailer closes an array
+that was never opened, so the struct end comes one token early) is not well-formed, nor is a message
+with something behind the struct end -/
+example : wellFormed (msgToks false false false false { pieces := [], size := 0, more := true }) = false ∧
+    wellFormed [.op, .leaf, .cl, .leaf] = false ∧ wellFormed [.op, .op, .leaf, .cl] = false := by decide
+
+/-! ## cursor level: list index, rewind position, partial writes (`Model/ChunkCursor.lean`)
+
+The statements above are about a model in which a report is identified with its size and written
+atomically.  `Model/ChunkCursor.lean` models the attribute section one level down — the bytes of the
+`WriteBuf` (what `as_slice()` sends, and what stays in the array behind `end`), writes that fail half
+way, the rewind positions of `process_read` and `send_array_items`, the list index that
+`send_array_items` carries across chunks, the loops as loops with fuel — and
+`Lemmas/ChunkCursor.lean` proves that it refines the size-level model. -/
+
+/-- the messages of a cursor-level run, in the order sent, the last one being the buffer handed to the
+rest of the responder (without trailers) -/
+def msgsOf (x : CSt) : List (List Cell) := x.sent.reverse ++ [x.wb.live]
+
+/-- **the cursor-level attribute section is the size-level one** (whole run, every partial-write
+function `pw`, every garbage `g` in the buffer): both fail with the same error, or both end and
+every message sent consists of header, array start and the bytes of the COMPLETE reports of the
+corresponding size-level chunk — no byte of a report that did not fit, no byte of an earlier message.
+`IdxOk`: every list has at most 65535 elements — the list index of `send_array_items` is a `u16` and
+`list_index + 1` is a checked addition in the model (`nextIdx`; `arrStep_overflow`: the bound is needed) -/
+theorem cursor_attrs_refine {c : Cfg} (hw : c.WF) (pw : PW) (g : List Cell) (as : List AttrReq) (hok : IdxOk as) :
+    (∃ e, cattrs c pw false g as = .error e ∧ putAttrs c (yielded as) (St.init c) = .error e ∧ e = .noSpace) ∨
+    (∃ x s, cattrs c pw false g as = .ok x ∧ putAttrs c (yielded as) (St.init c) = .ok s ∧
+      x.sent = s.done.map (fun ch => body c ch.pieces) ∧ x.wb.live = body c s.cur.reverse) := by
+  have h := cattrs_sim hw pw g as hok
+  cases h1 : cattrs c pw false g as with
+  | error e =>
+    cases h2 : putAttrs c (yielded as) (St.init c) with
+    | error e2 =>
+      rw [h1, h2] at h
+      have : e = e2 := h
+      subst this
+      rw [putAttrs_eq] at h2
+      exact .inl ⟨e, rfl, rfl, putItems_err _ _ _ h2⟩
+    | ok s => rw [h1, h2] at h; exact h.elim
+  | ok x =>
+    cases h2 : putAttrs c (yielded as) (St.init c) with
+    | error e2 => rw [h1, h2] at h; exact h.elim
+    | ok s =>
+      rw [h1, h2] at h
+      have hs : Sim c x s := h
+      exact .inr ⟨x, s, rfl, rfl, hs.sent, hs.live⟩
+
+/-- **the loops of the attribute section end** (audit concern 4: termination with content): the
+`loop { process_read … }` of `report_attributes` (fuel 4) and the loop of `send_array_items` (fuel
+`2·n + 6`) never exhaust their fuel, whatever the sizes — for lists of at most 65535 elements (`IdxOk`:
+the `u16` list index; beyond that the model ends with `Err.overflow` like a build with overflow checks,
+while a release build wraps the index to 0 and streams the list again and again) -/
+theorem cursor_never_loops {c : Cfg} (hw : c.WF) (pw : PW) (g : List Cell) (as : List AttrReq) (hok : IdxOk as) :
+    cattrs c pw false g as ≠ .error .loops ∧ cattrs c pw false g as ≠ .error .overflow := by
+  have key : ∀ e, e ≠ Err.noSpace → cattrs c pw false g as ≠ .error e := by
+    intro e0 hne h
+    rcases cursor_attrs_refine hw pw g as hok with ⟨e, h1, _, h3⟩ | ⟨x, s, h1, _⟩
+    · rw [h] at h1; injection h1 with h1; subst h1; exact hne h3
+    · rw [h] at h1; cases h1
+  exact ⟨key _ (by intro h; cases h), key _ (by intro h; cases h)⟩
+
+/-- the loop that `cursor_never_loops` excludes existed: on the unrepaired loop (`itemLoopOld`: no test
+for an empty message) the value of `oversize_item_gets_status` exhausts every fuel
+(`oversize_item_loops_before_fix`), each round sending a message without a report -/
+example (fuel : Nat) :
+    itemLoopOld readCfg pwAll (.scalar 0 1148) fuel (CSt.init readCfg []) = .error .loops :=
+  oversize_item_loops_before_fix readCfg pwAll _ (by decide) fuel _ (by simp [CSt.init, WB.push])
+
+/-- **what the attribute section hands to the event section**, at cursor level: the messages sent so
+far and the buffer are those of the size-level state `s1` of `respond` -/
+theorem cursor_attr_section {c : Cfg} (hw : c.WF) (pw : PW) (g : List Cell) {as : List AttrReq} {s1 : ESt}
+    (hok : IdxOk as) (h : attrSection c (some as) = .ok s1) :
+    ∃ x, cattrs c pw false g as = .ok x ∧ x.sent = s1.done.map (fun ch => body c ch.pieces) ∧
+      x.wb.live = body c s1.attrs.reverse := by
+  obtain ⟨s, hp, _, hd, ha, _⟩ := attrSection_some hw h
+  rcases cursor_attrs_refine hw pw g as hok with ⟨e, _, h2, _⟩ | ⟨x, s2, h1, h2, h3, h4⟩
+  · rw [putAttrs_eq] at h2
+    have : putItems c (selected as) (St.init c) = .error e := h2
+    rw [hp] at this; cases this
+  · rw [putAttrs_eq] at h2
+    have : putItems c (selected as) (St.init c) = .ok s2 := h2
+    rw [hp] at this
+    injection this with this
+    subst this
+    exact ⟨x, h1, by rw [h3, hd], by rw [h4, ha]⟩
+
+/-- **an attribute read, message by message**: the byte strings the cursor-level run sends are, one for
+one, header + array start + the bytes of the reports of the messages of `chunks` -/
+theorem cursor_messages {c : Cfg} (hw : c.WF) (pw : PW) (g : List Cell) {items : List Item} {cs : List ChunkOut}
+    (hok : IdxOk (plain items)) (h : chunks c items = .ok cs) :
+    ∃ x, cattrs c pw false g (plain items) = .ok x ∧ msgsOf x = cs.map fun ch => body c ch.pieces := by
+  obtain ⟨s, hp, _, rfl⟩ := chunks_ok_shape hw h
+  rcases cursor_attrs_refine hw pw g (plain items) hok with ⟨e, _, h2, _⟩ | ⟨x, s2, h1, h2, h3, h4⟩
+  · rw [putAttrs_eq] at h2
+    have h2b : putItems c (selected (plain items)) (St.init c) = .error e := h2
+    rw [selected_plain, hp] at h2b; cases h2b
+  · rw [putAttrs_eq] at h2
+    have h2b : putItems c (selected (plain items)) (St.init c) = .ok s2 := h2
+    rw [selected_plain, hp] at h2b
+    injection h2b with h2b
+    subst h2b
+    refine ⟨x, h1, ?_⟩
+    simp [msgsOf, h3, h4, List.map_reverse]
+
+/-- a message is as long as its header and its complete reports (the rewinds left nothing behind) -/
+theorem body_size (c : Cfg) (ps : List Piece) : (body c ps).length = c.hdr + c.arrOpen + sumSizes ps :=
+  body_length c ps
+
+theorem reportStarts_cellsOf_ne (src : Src) (hs : ∀ p, src ≠ .rep p) (n : Nat) (rest : List Cell) :
+    reportStarts (cellsOf src n ++ rest) = reportStarts rest := by
+  have : ∀ l : List Nat, reportStarts (l.map (fun i => (⟨src, i⟩ : Cell)) ++ rest) = reportStarts rest := by
+    intro l
+    induction l with
+    | nil => rfl
+    | cons i l ih =>
+      cases src with
+      | rep p => exact absurd rfl (hs p)
+      | hdr => simpa [reportStarts] using ih
+      | arrOpen => simpa [reportStarts] using ih
+      | probe a b => simpa [reportStarts] using ih
+  exact this _
+
+theorem reportStarts_tail (p : Piece) : ∀ (l : List Nat), (∀ i ∈ l, 0 < i) → ∀ rest : List Cell,
+    reportStarts (l.map (fun i => (⟨.rep p, i⟩ : Cell)) ++ rest) = reportStarts rest := by
+  intro l
+  induction l with
+  | nil => intro _ rest; rfl
+  | cons i l ih =>
+    intro hl rest
+    have hi : 0 < i := hl i (by simp)
+    obtain ⟨j, rfl⟩ : ∃ j, i = j + 1 := ⟨i - 1, by omega⟩
+    simp only [List.map_cons, List.cons_append, reportStarts]
+    exact ih (fun k hk => hl k (by simp [hk])) rest
+
+theorem reportStarts_cells (p : Piece) (hp : 0 < p.size) (rest : List Cell) :
+    reportStarts (p.cells ++ rest) = p :: reportStarts rest := by
+  obtain ⟨n, hn⟩ : ∃ n, p.size = n + 1 := ⟨p.size - 1, by omega⟩
+  simp only [Piece.cells, cellsOf, hn, List.range_succ_eq_map, List.map_cons, List.cons_append, reportStarts,
+    List.map_map]
+  congr 1
+  have := reportStarts_tail p ((List.range n).map Nat.succ) (by simp) rest
+  simpa [List.map_map] using this
+
+/-- **a client finds the report boundaries**: in the bytes of a message the reports that start are
+exactly its reports, in order (reports are not empty) -/
+theorem reportStarts_body (c : Cfg) : ∀ ps : List Piece, (∀ p ∈ ps, 0 < p.size) →
+    reportStarts (body c ps) = ps := by
+  intro ps hps
+  have : ∀ ps : List Piece, (∀ p ∈ ps, 0 < p.size) → reportStarts (ps.flatMap Piece.cells) = ps := by
+    intro ps
+    induction ps with
+    | nil => intro _; rfl
+    | cons p ps ih =>
+      intro h
+      rw [List.flatMap_cons, reportStarts_cells p (h p (by simp)), ih (fun q hq => h q (by simp [hq]))]
+  simp only [body, frame, List.append_assoc]
+  rw [reportStarts_cellsOf_ne _ (by intro p; exact Src.noConfusion), reportStarts_cellsOf_ne _ (by intro p; exact Src.noConfusion)]
+  exact this ps hps
+
+/-- the list index a report appends at -/
+def elemIdx : Piece → Option (Nat × Nat)
+  | .listElem id i _ => some (id, i)
+  | _ => none
+
+theorem elemIdx_elemPieces (id : Nat) : ∀ (es : List Nat) (k : Nat),
+    (elemPieces id k es).filterMap elemIdx = (List.range' k es.length).map fun i => (id, i) := by
+  intro es
+  induction es with
+  | nil => intro k; simp [elemPieces_nil]
+  | cons e es ih =>
+    intro k
+    rw [elemPieces_cons]
+    simp [elemIdx, ih (k + 1), List.range'_succ]
+
+/-- how many elements of a list an outcome delivers by streaming -/
+def streamedCount (n : Nat) : Out → Nat
+  | .split => n
+  | .cut k => min k n
+  | _ => 0
+
+/-- **the list indices of the streamed elements are `0, 1, …, m − 1`, each once, in order** — all of
+them (`m = n`) when the list is streamed completely, the `k` before the first element that fits no
+message when it is cut -/
+theorem streamed_indices (id whole empty : Nat) (elems : List Nat) (probe st stE : Nat) (o : Out) :
+    ((Item.list id whole empty elems probe st stE).pieces o).filterMap elemIdx =
+      (List.range (streamedCount elems.length o)).map fun i => (id, i) := by
+  cases o with
+  | whole => simp [Item.pieces, elemIdx, streamedCount]
+  | failed => simp [Item.pieces, elemIdx, streamedCount]
+  | split =>
+    simp only [Item.pieces, List.filterMap_cons, elemIdx, elemIdx_elemPieces, streamedCount, List.range_eq_range']
+  | cut k =>
+    simp only [Item.pieces, List.filterMap_cons, List.filterMap_append, elemIdx, elemIdx_elemPieces,
+      List.filterMap_nil, List.append_nil, streamedCount, List.range_eq_range', List.length_take]
+
+/-- **exactly once, in order, at report boundaries — read off the bytes sent**: for an attribute read
+whose reports are not empty, the reports that START in the messages of the cursor-level run are, message
+by message, the reports of `chunks` (so, by `chunks_good`, each selected report once, in request order,
+the list indices `0, 1, …` by `streamed_indices`), and every message is exactly as long as its header
+and its complete reports -/
+theorem cursor_report_starts {c : Cfg} (hw : c.WF) (pw : PW) (g : List Cell) {items : List Item}
+    {cs : List ChunkOut} (hok : IdxOk (plain items)) (h : chunks c items = .ok cs)
+    (hpos : ∀ ch ∈ cs, ∀ p ∈ ch.pieces, 0 < p.size) :
+    ∃ x, cattrs c pw false g (plain items) = .ok x ∧
+      (msgsOf x).map reportStarts = cs.map (·.pieces) ∧
+      (msgsOf x).map List.length = cs.map fun ch => c.hdr + c.arrOpen + sumSizes ch.pieces := by
+  obtain ⟨x, h1, h2⟩ := cursor_messages hw pw g hok h
+  refine ⟨x, h1, ?_, ?_⟩
+  · rw [h2, List.map_map]
+    apply List.map_congr_left
+    intro ch hch
+    exact reportStarts_body c ch.pieces (hpos ch hch)
+  · rw [h2, List.map_map]
+    apply List.map_congr_left
+    intro ch _
+    exact body_length c ch.pieces
+
+/-- a small configuration (messages of at most 41 bytes, 30 for reports) -/
+def tinyCfg : Cfg :=
+  { cap := 41, reserve := 7, structReserve := 4, hdr := 1, arrOpen := 2, close := 1, trailerMore := 7, trailerDone := 6 }
+
+theorem tinyCfg_wf : tinyCfg.WF := by
+  refine ⟨?_, ?_, ?_, ?_, ?_, ?_⟩ <;> decide
+
+/-- a list of four elements that ends less than a report header before the end of its second message:
+the end-of-list read finds no space, the chunk is sent, and the read is repeated as the first read of
+the fresh message (the situation of the seeded change C14-a) -/
+def tinyList : Item := .list 5 100 4 [10, 10, 10, 10] 8 6 7
+
+/-- the hypotheses of `cursor_report_starts` are satisfiable, and this is what the faithful cursor-level
+run sends: three messages, the elements `0, 1 | 2, 3 |` — the last message holds only the header -/
+example : tinyCfg.WF ∧
+    (chunks tinyCfg [tinyList]).toOption.map (·.map (·.pieces)) =
+      some [[.listStart 5 4, .listElem 5 0 10, .listElem 5 1 10], [.listElem 5 2 10, .listElem 5 3 10], []] ∧
+    (cattrs tinyCfg pwAll false [] (plain [tinyList])).toOption.map (fun x => (msgsOf x).map reportStarts) =
+      some [[.listStart 5 4, .listElem 5 0 10, .listElem 5 1 10], [.listElem 5 2 10, .listElem 5 3 10], []] :=
+  ⟨tinyCfg_wf, by decide, by decide⟩
+
+/-- the hypothesis `IdxOk` of the cursor-level theorems is satisfiable … -/
+example : IdxOk (plain [tinyList]) := by
+  intro a ha
+  simp only [plain, List.map_cons, List.map_nil, List.mem_singleton] at ha
+  subst ha
+  show 4 ≤ idxMax
+  decide
+
+/-- … and needed: in a list of 65536 elements the read of element 65535 = `u16::MAX` succeeds and the
+following `list_index + 1` overflows (hypotheses of `arrStep_overflow` instantiated on the initial state) -/
+example : arrStep readCfg pwAll (readCfg.hdr + readCfg.arrOpen) false
+      { id := 1, empty := 4, elems := List.replicate 65536 1, probe := 8, st := 6, stE := 7 }
+      (some idxMax) 0 (CSt.init readCfg []) = .inr (.error .overflow) :=
+  arrStep_overflow pwAll _ 0 (e := 1)
+    (by show (List.replicate 65536 1)[65535]? = some 1
+        rw [List.getElem?_replicate, if_pos (by decide)])
+    (sim_init readCfg []) (inv_init readCfg readCfg_wf)
+    (by decide)
+
+/-- **the seeded change C14-a at model level: with a stale rewind position the theorem fails.**
+`arrStep … (stale := true)` keeps the rewind position across `send(ChunkingAttributes)`; when the first
+read of the fresh message fails (here: the end-of-list read answers `ConstraintError`), the "rewind"
+moves the tail FORWARD over the bytes of the previous message that are still in the buffer.  On
+`tinyList` the third message then is not header + complete reports (`Sim` fails: 23 bytes instead of
+3), element 3 is delivered twice, and the bytes between the repeated header and it are the torn end of
+element 2 — while the size-level run, and the faithful cursor-level run, deliver each element once. -/
+theorem stale_rewind_breaks_reassembly :
+    ∃ x s, cattrs tinyCfg pwAll true [] (plain [tinyList]) = .ok x ∧
+      putAttrs tinyCfg (yielded (plain [tinyList])) (St.init tinyCfg) = .ok s ∧
+      ¬ Sim tinyCfg x s ∧
+      (msgsOf x).map reportStarts =
+        [[.listStart 5 4, .listElem 5 0 10, .listElem 5 1 10], [.listElem 5 2 10, .listElem 5 3 10],
+         [.listElem 5 3 10]] ∧
+      ((msgsOf x).flatMap reportStarts).filterMap elemIdx = [(5, 0), (5, 1), (5, 2), (5, 3), (5, 3)] ∧
+      x.wb.live.length = 23 ∧ x.wb.live[11]? = some ⟨.rep (.listElem 5 2 10), 8⟩ := by
+  refine ⟨_, _, rfl, rfl, ?_, by decide, by decide, by decide, by decide⟩
+  intro h
+  have := congrArg List.length h.live
+  revert this
+  decide
+
 /-! ## the defect of the unrepaired code -/
 
 /-- `report_attributes` + `send(Done)` before `fix: long reads: … structural reserve`: the array end
@@ -740,5 +1118,155 @@ theorem exact_fit_fails_before_fix :
   · intro it hit; simp at hit; subst hit; decide
   · rfl
   · rfl
+
+/-! ## the event queue changes between the chunks (audit concern 3)
+
+Everything above reads ONE snapshot `r.buf` of the event queue at every fetch.  In the code every
+`events.fetch` takes the lock anew and between two fetches lies `send(ChunkingEvents).await`, during
+which other tasks push events (evicting / promoting old ones).  `Model/ChunkLive.lean` runs the same
+per-fetch step on a buffer that is a different one at every fetch (`respondLive`, `respondQ` over the
+queue model); `Lemmas/ChunkLive.lean` states what the property demands then, per fetch and relative to
+the queue AT THAT FETCH (`FetchOk`, `LiveSpec`, `LiveEvents`, `GoodLive`), and proves it:
+`respondLive_good` / `respondQ_good`, `live_no_duplicates`, `live_sound`, `live_complete_persistent`,
+`LiveSpec.complete_from`, `LiveSpec.complete_new`, `FetchOk.dichotomy`, `respondLive_never_loops`.
+Assumptions: only finitely many changes of the queue happen while one answer is sent (a Read has
+`next_max_seen = u64::MAX`, so a producer that pushes a message-full of matching events during every
+round trip keeps the answer alive: `read_kept_alive_sample`); the event number does not wrap; attribute
+VALUES re-read after a chunk was sent are not modelled as changing (sizes are fixed per `Item`). -/
+
+/-- **the frozen model is the special case of a live queue that does not change** -/
+theorem respond_eq_respondLive_nil (c : Cfg) (r : Req) : respond c r = respondLive c r [] :=
+  (respondLive_nil c r).symm
+
+/-- … and the frozen specification (`Good.events`: exactly the selected events of the snapshot, each
+once, in buffer order) is what the live specification says when the queue does not change -/
+theorem goodLive_nil_events {c : Cfg} {r : Req} {cs : List ChunkOut} (h : GoodLive c r [] cs) :
+    cs.flatMap (·.events) = eventsOf r := by
+  have hev : LiveEvents [] r.events (cs.flatMap (·.events)) := by
+    rw [List.flatMap_def]; exact h.events.flat
+  unfold eventsOf
+  cases he : r.events with
+  | none => rw [he] at hev; exact hev
+  | some e =>
+    rw [he] at hev
+    obtain ⟨tr, hs, hb, _, hevs⟩ := hev
+    have hfro : emittedAll tr = pendingAt e e.maxSeen e.buf := by
+      refine hs.frozen e.buf ?_
+      intro f hf
+      obtain ⟨i, hi, rfl⟩ := List.mem_iff_getElem.mp hf
+      rw [hb i _ (List.getElem?_eq_getElem hi), envOf_nil]
+    rw [hevs, hfro]
+    rfl
+
+/-- **the live specification is message-wise**: queue `[1, 2, 3]` at the first fetch, `[3]` at the second
+(1 and 2 evicted meanwhile).  The messages `[1], [2, 3]` concatenate to what ONE fetch over the first
+queue reports, but message 2 reports event 2, which was not in the queue when message 2 was filled:
+rejected (`LiveMsgsFull.msg_sound`; the flat `LiveEvents` alone would accept it) -/
+example : ¬ LiveMsgs [[⟨3, 10, true⟩]]
+    (some { buf := [⟨1, 10, true⟩, ⟨2, 10, true⟩, ⟨3, 10, true⟩], nextMax := 100 })
+    [[.data 1 10], [.data 2 10, .data 3 10]] := by
+  intro h
+  rcases h with h | ⟨_, h0⟩
+  · obtain ⟨m0, hm⟩ := h.msg_sound
+    have h1 := (hm 0 [.data 1 10] 1 10 rfl (by simp)).1
+    obtain ⟨_, x, hx, hn, _⟩ := hm 1 [.data 2 10, .data 3 10] 2 10 rfl (by simp)
+    have : m0 = 0 := by omega
+    subst this
+    have hb : envOf [⟨1, 10, true⟩, ⟨2, 10, true⟩, ⟨3, 10, true⟩] [[⟨3, 10, true⟩]] (1 - 0) = [⟨3, 10, true⟩] := rfl
+    rw [hb] at hx
+    simp only [List.mem_singleton] at hx
+    subst hx
+    cases hn
+  · have := h0 [.data 1 10] (by simp)
+    cases this
+
+/-- a queue of three buffers of 30 bytes holding three debug events of 10 bytes -/
+def liveQ : Queue := (Queue.new 30).after [.push 0 10 none, .push 0 10 none, .push 0 10 none]
+
+/-- a Read of all events (`next_max_seen = u64::MAX`) -/
+def liveReq : Req := { attrs := none, events := some { buf := [], nextMax := Queue.u64Max } }
+
+/-- while the first chunk is sent two more events are pushed: the debug buffer is full, events 1 and 2
+are evicted (debug priority: dropped) -/
+def liveSched : List (List QOp) := [[.push 0 10 none, .push 0 10 none]]
+
+/-- the hypotheses of `respondQ_good` are satisfiable -/
+example : readCfg.WF ∧ Queue.QInv liveQ ∧ ∀ q2 ∈ liveQ.states liveSched, q2.wrapped = false :=
+  ⟨readCfg_wf, Queue.after_qinv (Queue.qinv_new 30) _, by decide⟩
+
+set_option maxRecDepth 16000 in
+/-- **the live answer differs from the snapshot answer** (every report is 600 bytes: one per message):
+event 1 is sent; while that chunk is under way events 4 and 5 are pushed and evict 1 and 2; the second
+fetch (cursor 1) finds the queue `[3, 4, 5]`: event 2 was evicted before the reader reached it and is
+legitimately absent, events 4 and 5 — pushed after the answer began — are included; the snapshot
+model answers `[1], [2], [3]` -/
+example :
+    (liveQ.states liveSched).map (fun q => q.iter.map (·.num)) = [[1, 2, 3], [3, 4, 5]] ∧
+    (respondQ readCfg liveReq (fun _ => 600) (fun _ => true) liveQ liveSched).toOption.map
+        (·.map fun ch => (dataNums ch.events, ch.size, ch.more)) =
+      some [([1], 610, true), ([3], 610, true), ([4], 610, true), ([5], 610, false)] ∧
+    (respond readCfg (liveReq.onQueue (fun _ => 600) (fun _ => true) liveQ)).toOption.map
+        (·.map fun ch => (dataNums ch.events, ch.size, ch.more)) =
+      some [([1], 610, true), ([2], 610, true), ([3], 610, false)] := by
+  refine ⟨by decide, by rfl, by rfl⟩
+
+/-- … and it is `GoodLive` (instance of `respondQ_good`) -/
+example : ∃ cs, respondQ readCfg liveReq (fun _ => 600) (fun _ => true) liveQ liveSched = .ok cs ∧
+    GoodLive readCfg (liveReq.onQueue (fun _ => 600) (fun _ => true) liveQ)
+      (liveBufs (fun _ => 600) (fun _ => true) liveQ liveSched) cs := by
+  have hok : (respondQ readCfg liveReq (fun _ => 600) (fun _ => true) liveQ liveSched).toOption.isSome = true := by rfl
+  cases h : respondQ readCfg liveReq (fun _ => 600) (fun _ => true) liveQ liveSched with
+  | error e => rw [h] at hok; cases hok
+  | ok cs =>
+    exact ⟨cs, rfl, respondQ_good readCfg_wf (Queue.after_qinv (Queue.qinv_new 30) _) (by decide) h⟩
+
+/-- the hypotheses of `after_evolves` are satisfiable; here the buffer `[1, 2, 3]` evolves into `[3, 4, 5]` -/
+example : Evolves (liveQ.view (fun _ => 600) (fun _ => true))
+    ((liveQ.after [.push 0 10 none, .push 0 10 none]).view (fun _ => 600) (fun _ => true)) :=
+  after_evolves _ _ (Queue.after_qinv (Queue.qinv_new 30) _) _
+    (by intro op hop; simp only [List.mem_cons, List.not_mem_nil, or_false, or_self] at hop; exact ⟨0, 10, none, hop⟩)
+    (by decide)
+
+set_option maxRecDepth 16000 in
+/-- the hypotheses of `respondLive_lastEnds` are satisfiable (the live example above: real encoding, every
+report 600 bytes) -/
+example : readCfg.arrOpen ≤ readCfg.evOpen ∧
+    ∀ e, (liveReq.onQueue (fun _ => 600) (fun _ => true) liveQ).events = some e →
+      ∀ b ∈ e.buf :: liveBufs (fun _ => 600) (fun _ => true) liveQ liveSched, BufFits readCfg e b := by
+  refine ⟨by decide, ?_⟩
+  intro e he
+  injection he with he
+  subst he
+  unfold BufFits
+  decide
+
+set_option maxRecDepth 16000 in
+/-- **why termination needs the finite-schedule assumption**: a producer that pushes one more matching
+event per round trip keeps a Read alive for as long as it goes on — here 6 scheduled changes, 8 messages
+(the answer over the snapshot has 2) -/
+theorem read_kept_alive_sample :
+    ((respondLive readCfg { attrs := none, events := some { buf := [⟨1, 600, true⟩, ⟨2, 600, true⟩], nextMax := Queue.u64Max } }
+        ((List.range 6).map fun i => [⟨i + 2, 600, true⟩, ⟨i + 3, 600, true⟩])).toOption.map (·.length)) = some 8 ∧
+    ((respond readCfg { attrs := none, events := some { buf := [⟨1, 600, true⟩, ⟨2, 600, true⟩], nextMax := Queue.u64Max } }).toOption.map
+        (·.length)) = some 2 := by
+  constructor <;> rfl
+
+/-- a subscription report: no attribute changed, one new event, longer than a message -/
+def orphanReq : Req :=
+  { attrs := some [{ item := .scalar 1 40 30, wanted := false }],
+    events := some { buf := [⟨7, 1148, true⟩], maxSeen := 6, nextMax := 7 }, sendIfEmpty := false }
+
+set_option maxRecDepth 16000 in
+/-- **observation (live queue only)**: a subscription report without changed attributes
+(`send_if_empty = false`) whose first event fits no message: the message holding the empty attribute
+array is sent with MoreChunkedMessages (over a frozen queue the next fetch then fails the interaction
+with `ResourceExhausted`); if the event is evicted meanwhile, the next fetch finds nothing, the report
+counts as empty and NO final message follows the chunk — the left disjunct of `GoodLive.lastEnds`
+with a non-empty answer.  Needs an event longer than a message, which already fails the interaction
+otherwise. -/
+theorem orphan_chunk :
+    respondLive subCfg orphanReq [[]] = .ok [{ pieces := [], events := [], size := 16, more := true }] ∧
+    respond subCfg orphanReq = .error .tooBig := by
+  constructor <;> rfl
 
 end C14
